@@ -15,7 +15,7 @@ TRUSTED = [
     'spec-side oracle lean/ParamVerif/Selector/Spec.lean (decidable restatement of the theorem conclusions)',
     'harness/props/c18.py adapter (reports list(objects), objects.items(), names, get_range(), return value, objects-watcher log, accept/reject of probe assignments)',
     'correspondence is differential testing: model = code only on the operation sequences executed',
-    'CPython list/dict semantics; objects are distinct integers so `is` and `==` coincide; str(int) injective (Std Int.repr_injective)',
+    'CPython list/dict semantics; objects are distinct integers or None (the model\'s 0) so `is` and `==` coincide; Python `str` is injective on them (a hypothesis `hstr` of the theorems; the driver uses `pyStr`)',
 ]
 ASSUMPTIONS = [
     'objects are unique integers, keys are strings; style-consistent operations as defined by Op.ok',
@@ -34,22 +34,31 @@ COVERAGE_TARGETS = [f'{op}:ok:{st}' for st in ('list', 'dict') for op in
                    ['popIdx:err:list', 'popKey:err:dict', 'remove:err:list', 'assign:err:list', 'assign:err:dict']
 
 
+def _o(v):
+    """model object -> Python object: 0 stands for None"""
+    return None if v == 0 else v
+
+
+def _i(v):
+    return 0 if v is None else v
+
+
 def _payload(x):
     import collections.abc
     if isinstance(x, collections.abc.Mapping):
-        return {'d': [[k, v] for k, v in x.items()]}
-    return {'l': list(list.__iter__(x))}
+        return {'d': [[k, _i(v)] for k, v in x.items()]}
+    return {'l': [_i(v) for v in list.__iter__(x)]}
 
 
 def _views(p, inst, log, ret, err, universe, check, kind):
-    obs = {'list': list(list.__iter__(p.objects)), 'items': [[k, v] for k, v in p.objects.items()],
-           'names': [[k, v] for k, v in p.names.items()], 'range': [[k, v] for k, v in p.get_range().items()],
+    obs = {'list': [_i(v) for v in list.__iter__(p.objects)], 'items': [[k, _i(v)] for k, v in p.objects.items()],
+           'names': [[k, _i(v)] for k, v in p.names.items()], 'range': [[k, _i(v)] for k, v in p.get_range().items()],
            'ret': ret, 'err': err, 'notifs': [list(x) for x in log], 'accepts': []}
     if check:
         acc = []
         for v in universe:
             try:
-                setattr(inst, 's', v if kind == 'Selector' else [v])
+                setattr(inst, 's', _o(v) if kind == 'Selector' else [_o(v)])
                 acc.append(True)
             except ValueError:
                 acc.append(False)
@@ -60,7 +69,7 @@ def _views(p, inst, log, ret, err, universe, check, kind):
 def run_impl(case):
     import param
     kind, decl = case['kind'], case['decl']
-    objs = {k: v for k, v in decl['names']} if decl['names'] is not None else list(decl['objs'])
+    objs = {k: _o(v) for k, v in decl['names']} if decl['names'] is not None else [_o(v) for v in decl['objs']]
     if decl['names'] is not None and decl.get('mapping') == 'proxy':
         import collections
         objs = collections.UserDict(objs)         # any Mapping is dictionary-style, not only dict
@@ -79,45 +88,47 @@ def run_impl(case):
             o = op['op']
             try:
                 if o == 'setIdx':
-                    p.objects[op['i']] = op['o']
+                    p.objects[op['i']] = _o(op['o'])
                 elif o == 'setKey':
-                    p.objects[op['k']] = op['o']
+                    p.objects[op['k']] = _o(op['o'])
                 elif o == 'append':
-                    p.objects.append(op['o'])
+                    p.objects.append(_o(op['o']))
                 elif o == 'insert':
-                    p.objects.insert(op['i'], op['o'])
+                    p.objects.insert(op['i'], _o(op['o']))
                 elif o == 'extend':
-                    p.objects.extend(list(op['os']))
+                    p.objects.extend([_o(v) for v in op['os']])
                 elif o == 'update':
                     nkw = op.get('nkw', 0)        # the last nkw pairs are passed as keyword items
                     pos, kw = op['kvs'][:len(op['kvs']) - nkw], op['kvs'][len(op['kvs']) - nkw:]
-                    if len({k for k, _ in kw}) != len(kw):
+                    if len({k for k, _ in kw}) != len(kw) or any(not k.isidentifier() for k, _ in kw):
                         pos, kw = op['kvs'], []
-                    p.objects.update([(k, v) for k, v in pos], **{k: v for k, v in kw})
+                    p.objects.update([(k, _o(v)) for k, v in pos], **{k: _o(v) for k, v in kw})
                 elif o == 'popIdx':
                     ret = p.objects.pop(op['i']) if not op.get('default') else p.objects.pop()
                 elif o == 'popKey':
                     ret = p.objects.pop(op['k'])
                 elif o == 'remove':
-                    p.objects.remove(op['o'])
+                    p.objects.remove(_o(op['o']))
                 elif o == 'clear':
                     p.objects.clear()
                 elif o == 'replaceList':
-                    p.objects = list(op['os'])
+                    p.objects = [_o(v) for v in op['os']]
                 elif o == 'replaceDict':
-                    d = {k: v for k, v in op['kvs']}
+                    d = {k: _o(v) for k, v in op['kvs']}
                     if op.get('mapping') == 'proxy':
                         import collections
                         d = collections.UserDict(d)
                     p.objects = d
                 elif o == 'assign':
-                    setattr(inst, 's', op['v'] if kind == 'Selector' else [op['v']])
+                    setattr(inst, 's', _o(op['v']) if kind == 'Selector' else [_o(op['v'])])
                 else:
                     raise RuntimeError(o)
             except (IndexError, ValueError, KeyError) as e:
                 err = type(e).__name__
-            if ret is not None and not isinstance(ret, int):
-                return {'crash': f'pop returned {ret!r}'}
+            if o in ('popIdx', 'popKey') and err is None:
+                ret = _i(ret)        # a popped None object is the model's 0
+            elif ret is not None:
+                return {'crash': f'{o} returned {ret!r}'}
             out['steps'].append(_views(p, inst, list(log), ret, err, U, check, kind))
         return out
     except Exception as e:  # the views themselves blew up: report, do not hide
@@ -132,6 +143,9 @@ def _decls():
         yield kind, {'objs': [1, 2, 3], 'names': [['a', 1], ['b', 2], ['c', 3]], 'check_on_set': True}
     yield 'Selector', {'objs': [1, 2, 3], 'names': [['a', 1], ['b', 2], ['c', 3]], 'check_on_set': True, 'mapping': 'proxy'}
     yield 'Selector', {'objs': [], 'names': None, 'check_on_set': True}
+    # a None object (the model's 0) and the empty string as a key
+    yield 'Selector', {'objs': [0, 1, 2], 'names': [['a', 0], ['', 1], ['c', 2]], 'check_on_set': True}
+    yield 'Selector', {'objs': [0, 1], 'names': None, 'check_on_set': True}
     yield 'Selector', {'objs': [1, 2], 'names': None, 'check_on_set': False}
 
 
@@ -152,6 +166,7 @@ def _alphabet(style, pos):
                          {'op': 'update', 'kvs': [['b', n1], ['y', n2]], 'nkw': 2},
                          {'op': 'replaceDict', 'kvs': [['p', n1], ['q', n2]], 'mapping': 'proxy'},
                          {'op': 'popKey', 'k': 'a'}, {'op': 'popKey', 'k': 'c'}, {'op': 'popKey', 'k': 'q'},
+                         {'op': 'setKey', 'k': '', 'o': n1}, {'op': 'popKey', 'k': ''},
                          {'op': 'replaceDict', 'kvs': [['p', n1], ['a', 2], ['q', n2]]},
                          {'op': 'replaceDict', 'kvs': []}]
 
@@ -177,8 +192,8 @@ def _random_case(rng):
     kind = rng.choice(['Selector', 'ListSelector'])
     style = rng.choice(['list', 'dict'])
     n = rng.randint(0, 4)
-    objs = rng.sample(range(1, 9), n)
-    keys = rng.sample('abcdefgh', n)
+    objs = rng.sample(range(0, 9), n)          # 0 = None
+    keys = rng.sample(['a', 'b', 'c', 'd', 'e', 'f', 'g', ''], n)
     decl = {'objs': objs, 'names': [[k, v] for k, v in zip(keys, objs)] if style == 'dict' else None,
             'check_on_set': True if style == 'dict' else rng.random() < 0.8}
     # generator-side shadow of the current contents, only used to draw mostly valid ops
@@ -193,7 +208,7 @@ def _random_case(rng):
         newo = (lambda: next(fresh)) if not (malformed and rng.random() < 0.3) else (lambda: rng.choice(cur or [1]))
         idx = lambda: rng.choice([0, -1, 1, 2, -2, rng.randint(-6, 6)])
         existing = lambda: (rng.choice(cur) if cur and rng.random() < 0.85 else rng.choice([99, 0]))
-        ekey = lambda: (rng.choice(list(names)) if names and rng.random() < 0.8 else rng.choice('abcxyz'))
+        ekey = lambda: (rng.choice(list(names)) if names and rng.random() < 0.8 else rng.choice(['a', 'b', 'c', 'x', 'y', 'z', '']))
         r = rng.random()
         if r < 0.12:
             op = {'op': 'popIdx', 'i': idx()}
